@@ -38,7 +38,7 @@ theorem ledger_step (cfg : Cfg) (w : World) (st : State) (r : Req) :
   | openDir p =>
     simp only [step, ledgerEv, handles]
     cases openRO cfg w (PathStr.cleanRequest p) with
-    | none => simp
+    | none => simp; omega
     | some ro => cases ro <;> simp <;> (cases st.cwd <;> simp <;> omega)
   | readDir =>
     simp only [step, ledgerEv, handles]
